@@ -13,7 +13,8 @@ From Coq Require Import List NArith ZArith QArith Bool Arith Lia Permutation.
 Import ListNotations.
 From FP Require Import Lin Blocks BlocksProofs PathEnc PathEncProofs Euler EulerProofs1 EulerProofs4 WalkDecode
                        SatCheck WalkEncRows WalkEncRowsProofs WalkExamples WalkErrEnc WalkErrEncProofs WalkErrExamples
-                       WalkTree WalkEncComplete WalkCoverIff WalkErrComplete WalkErrOptimal WalkErrOptExamples.
+                       WalkTree WalkEncComplete WalkCoverIff WalkErrComplete WalkErrOptimal WalkErrOptExamples
+                       Dilworth WalkWidth WalkErrWidth WalkErrWidthExamples.
 Local Close Scope Q_scope.
 
 Theorem C08_walk_lp_solution_is_k_walks_with_covering_slacks : forall (I : werr_inst) (a : var -> Q),
@@ -111,3 +112,61 @@ Example C08_walk_optimal_nonvacuous :
   (forall b, sat b (encode_kmpe_cycles tail_inst) -> (objective tail_kmpe_asg (encode_kmpe_cycles tail_inst) <= objective b (encode_kmpe_cycles tail_inst))%Q) /\
   (exists P wt sl, kmpec_admissible tail_inst P wt sl /\ (sumq sl (layers (x_k tail_inst)) == 0)%Q).
 Proof. exact kmpec_optimal_nonvacuous. Qed.
+
+(* ------------------------------------------------------------------ "feasible for k >= width" on digraphs with cycles.
+   Composition of agent-walk's walk-width theorem with bounded repetition (WalkWidthCaps.bounded_walk_cover: the non-ignored
+   edges X can be covered by walk-width many source-to-sink walks none of which passes an edge more than |X| + 2 times) with
+   completeness within the caps.  The caps of kMinPathErrorCycles are derived from the WEIGHTS (repetition cap = largest weight
+   reachable from / reaching the edge; bit vector and product bound from w_max = k * largest non-ignored weight), so the theorem has
+   the side condition that they admit |X| + 2 repetitions, stated on the instance:
+     (rep)  |X| + 2 <= reach_max(e) for every edge inside a strongly connected component,
+     (bits) |X| + 2 <= w_max,   (prod) (w_max / k) * (|X| + 2) <= w_max.
+   A' is the walk width: a largest set of non-ignored edges no two of which lie on a common walk (= get_width on the expanded
+   condensation: WalkWidth.min_walk_cover_equals_condensation_width). *)
+Theorem C08_walk_feasible_for_k_at_least_walk_width : forall I : werr_inst,
+  let G := x_graph I in let E := g_edges G in let X := x_basic I in
+  wf_stg G ->
+  (forall u v, In (u, v) E -> conn E (g_src G) u /\ conn E v (g_snk G)) ->
+  x_cons I = [] -> x_safe_lists I = [] -> x_fix I = [] ->
+  (forall e, In e X -> (0 <= xscale I e <= 1)%Q /\ (0 <= xflow I e)%Q /\ (x_int I = true -> is_int (xflow I e))) ->
+  X <> [] ->
+  ((forall e, In e E -> is_scc_edge G e = true -> (qnat (length X + 2) <= reach_max I e)%Q) /\
+   (qnat (length X + 2) <= x_wmax I)%Q /\ (x_mslack I * qnat (length X + 2) <= x_wmax I)%Q) ->
+  exists A' : list PathEnc.edge,
+    NoDup A' /\ incl A' X /\ walk_incompatible E A' /\
+    (forall A2, NoDup A2 -> incl A2 X -> walk_incompatible E A2 -> (length A2 <= length A')%nat) /\
+    ((length A' <= x_k I)%nat -> exists a, sat a (encode_kmpe_cycles I) /\ (objective a (encode_kmpe_cycles I) == x_wmax I)%Q).
+Proof. exact kmpec_feasible_from_walk_width. Qed.
+Print Assumptions C08_walk_feasible_for_k_at_least_walk_width.
+
+(* the general form: ANY family of k walks through all non-ignored edges with at most B repetitions per edge makes the LP
+   feasible when the caps admit B repetitions *)
+Theorem C08_walk_feasible_from_bounded_family : forall (I : werr_inst) (P : N -> list node) (B : nat),
+  wf_stg (x_graph I) -> x_cons I = [] -> x_safe_lists I = [] -> x_fix I = [] ->
+  wwalks (werr_walk I) P ->
+  (forall i e, In i (layers (x_k I)) -> (count_e e (pairs (P i)) <= B)%nat) ->
+  (forall e, In e (g_edges (x_graph I)) -> is_scc_edge (x_graph I) e = true -> (qnat B <= reach_max I e)%Q) ->
+  (qnat B <= x_wmax I)%Q ->
+  (forall e, In e (x_basic I) -> (0 <= xscale I e <= 1)%Q /\ (0 <= xflow I e)%Q /\ (x_int I = true -> is_int (xflow I e))) ->
+  (1 <= x_k I)%nat ->
+  (forall e, In e (x_basic I) -> exists i, In i (layers (x_k I)) /\ (1 <= count_e e (pairs (P i)))%nat) ->
+  (x_mslack I * qnat B <= x_wmax I)%Q ->
+  exists a, sat a (encode_kmpe_cycles I) /\ (objective a (encode_kmpe_cycles I) == x_wmax I)%Q.
+Proof. exact kmpec_feasible_from_family. Qed.
+Print Assumptions C08_walk_feasible_from_bounded_family.
+
+(* the side condition cannot be dropped: on the 2-cycle with a tail with unit weights and k = 1 (= walk width: one walk passes all
+   edges) every other hypothesis holds and the LP is infeasible -- the edge b -> a needs a walk through it, that walk passes a -> b
+   twice, the repetition cap of a -> b is the largest reachable weight 1 (open finding cycles_rep_cap_from_reachable_max) *)
+Theorem C08_walk_feasible_for_k_at_least_walk_width_needs_the_caps : ~ kmpec_feasible_from_walk_width_without_caps.
+Proof. exact kmpec_feasible_from_walk_width_without_caps_refuted. Qed.
+Print Assumptions C08_walk_feasible_for_k_at_least_walk_width_needs_the_caps.
+Theorem C08_walk_unit_weight_tail_is_infeasible : forall a, ~ sat a (encode_kmpe_cycles tail1).
+Proof. exact tail1_kmpe_unsat. Qed.
+Print Assumptions C08_walk_unit_weight_tail_is_infeasible.
+
+(* non-vacuity on the 2-cycle with a tail, a -> b of weight 4, k = 4: the hypotheses hold, hence the LP is satisfiable *)
+Example C08_walk_width_example :
+  (wf_stg (x_graph (tail_k 4 4%Q)) /\ x_basic (tail_k 4 4%Q) <> [] /\ caps_admit (tail_k 4 4%Q) (length (x_basic (tail_k 4 4%Q)) + 2)) /\
+  (exists a, sat a (encode_kmpe_cycles (tail_k 4 4%Q)) /\ (objective a (encode_kmpe_cycles (tail_k 4 4%Q)) == 16)%Q).
+Proof. exact (conj kmpec_width_premises kmpec_width_example). Qed.
